@@ -295,12 +295,17 @@ def validate_scalar(value: Any, dtype: DataType) -> Any:
         return value
 
     # Numeric coercions
-    if dtype.kind is float and vtype in (int, bool):
-        return float(value)
-    if dtype.kind is int and vtype is bool:
-        return int(value)
-    if dtype.kind is complex and vtype in (int, float, bool):
-        return complex(value)
+    try:
+        if dtype.kind is float and vtype in (int, bool):
+            return float(value)
+        if dtype.kind is int and vtype is bool:
+            return int(value)
+        if dtype.kind is complex and vtype in (int, float, bool):
+            return complex(value)
+    except OverflowError:
+        # an int beyond the float range still belongs in the column (inference puts
+        # it there too): it is kept as it is
+        return value
 
     # Temporal promotion
     if dtype.kind is datetime and vtype is date:
